@@ -15,6 +15,16 @@ CLAIMED = {
              "exception messages. Longer records / more groups than the bound are outside the claim.",
         ref="§4 C01", technique="symbolic execution of the real codec with z3 (CrossHair), differential against an ISO 14229-1 reference encoder",
     ),
+    "C03": dict(
+        text="Bounded symbolic execution (CrossHair + z3) of the real helpers.parse_pdu with request and reply bytes symbolic: for every modelled "
+             "service (request templates with symbolic echoed identifiers), truncated and unmodelled requests, and replies of the own service, "
+             "negative responses and foreign services of every length in the bound, the outcome class (accepted / RequestResponseMismatch / "
+             "MalformedResponse) on every path is one the statement admits per the ISO echo rules; the response-code to exception mapping is total.",
+        note="Trusted: CrossHair, z3, the echo rules in spec/matching.py and layouts in spec/responses.py. Parser-steering header bytes of the request "
+             "(sub-function of multi-class services, format identifiers) are concrete per obligation; which of mismatch/malformed is reported when both "
+             "apply is not asserted.",
+        ref="§4 C03", technique="symbolic execution of the real matcher with z3 (CrossHair), differential against ISO echo rules",
+    ),
     "C02": dict(
         text="Bounded symbolic execution (CrossHair + z3) of the real UDSResponse.parse_dynamic / from_pdu / pdu code: for every first byte "
              "0x00-0xFF and every total length in the stated bound, with all remaining bytes symbolic, every path is explored and the "
